@@ -111,13 +111,13 @@ const (
 	growPre     = "\x70w"
 )
 
-// present tells whether batch key i carries a value in generation g (key 0
-// always does, so that every generation is recognisable).
+// present tells whether batch key i carries a value in generation g (the first
+// key of either map always does, so that every generation is recognisable).
 func present(g, i int) bool {
 	if g == 0 {
 		return false
 	}
-	return i == 0 || (uint32(g)*2654435761>>(uint(i)+7))&1 == 1
+	return i%nBatchKeys == 0 || (uint32(g)*2654435761>>(uint(i)+7))&1 == 1
 }
 
 func batchMaps(g int) (map[string][]byte, map[string][]byte) {
